@@ -33,7 +33,9 @@ import (
 	"fmt"
 	"io"
 	"net"
+	"os"
 	"runtime"
+	"runtime/debug"
 	"strings"
 	"syscall"
 	"time"
@@ -833,6 +835,22 @@ func codecRealTransport(seed uint64, items, size int) (ok bool, why string) {
 	return true, ""
 }
 
+// memAvailableKiB: MemAvailable of /proc/meminfo (0 when unknown).
+func memAvailableKiB() int {
+	data, err := os.ReadFile("/proc/meminfo")
+	if err != nil {
+		return 0
+	}
+	for _, line := range strings.Split(string(data), "\n") {
+		if strings.HasPrefix(line, "MemAvailable:") {
+			var kb int
+			fmt.Sscanf(strings.TrimSpace(strings.TrimPrefix(line, "MemAvailable:")), "%d", &kb)
+			return kb
+		}
+	}
+	return 0
+}
+
 func codecDirect(seed uint64, tier string, args []string, w *bufio.Writer) {
 	fail := func(key, msg string) { fmt.Fprintf(w, "DIRECT-FAIL key=codec.%s %s\n", key, msg) }
 	{
@@ -853,8 +871,36 @@ func codecDirect(seed uint64, tier string, args []string, w *bufio.Writer) {
 		}
 		codecItemStep = 7
 	}
+	// the encoder at the limit: payloads of MaxPayloadLength - 1 and MaxPayloadLength are accepted, one byte more is refused
+	// (Encode only; the full round trip through a connection is left to the thorough tier). The payload pages are never
+	// touched, the destination buffer is: about 1 GiB resident for a moment.
+	limitSizes := []int{frame.MaxPayloadLength - 1, frame.MaxPayloadLength, frame.MaxPayloadLength + 1}
+	if avail := memAvailableKiB(); avail < 8<<20 {
+		// not enough free memory to be sure the probe cannot be killed: skipped, never a verdict
+		limitSizes = nil
+	}
+	for _, size := range limitSizes {
+		func() {
+			defer func() {
+				if p := recover(); p != nil {
+					fail("limit", fmt.Sprintf("Encode of %d bytes panicked: %v", size, p))
+				}
+			}()
+			src, dst := sonic.NewByteBuffer(), sonic.NewByteBuffer()
+			err := frame.NewCodec(src).Encode(make([]byte, size), dst)
+			switch {
+			case size <= frame.MaxPayloadLength && err != nil:
+				fail("limit", fmt.Sprintf("Encode refuses a payload of %d bytes (limit %d): %v", size, frame.MaxPayloadLength, err))
+			case size > frame.MaxPayloadLength && err == nil:
+				fail("limit", fmt.Sprintf("Encode accepts a payload of %d bytes (limit %d)", size, frame.MaxPayloadLength))
+			case err == nil && dst.ReadLen()+dst.WriteLen() != size+frame.HeaderLen:
+				fail("limit", fmt.Sprintf("Encode of %d bytes left %d bytes in the destination", size, dst.ReadLen()+dst.WriteLen()))
+			}
+		}()
+		debug.FreeOSMemory()
+	}
 	if tier != "thorough" {
-		fmt.Fprintf(w, "DIRECT-STAT {\"codec_real_transport_items\": 10, \"codec_limit_roundtrip\": \"skipped (thorough tier only)\"}\n")
+		fmt.Fprintf(w, "DIRECT-STAT {\"codec_real_transport_items\": 10, \"codec_limit_roundtrip\": \"encoder only (full round trip in the thorough tier)\"}\n")
 		return
 	}
 	r := newRng(seed)
